@@ -2,7 +2,7 @@
    Property theorems only; proofs live in Proofs/. *)
 From Coq Require Import Bool NArith List Lia Arith.
 Import ListNotations.
-From RsddV Require Import Base.Bdd Model.IteStd Model.BddOps Proofs.IteStd Proofs.BddCanon Proofs.BddIte Proofs.BddOps.
+From RsddV Require Import Base.Bdd Model.IteStd Model.BddOps Model.BddProg Proofs.IteStd Proofs.BddCanon Proofs.BddIte Proofs.BddOps Proofs.BddProg.
 
 (* Ite::new (cache/ite.rs): for EVERY relation passed as the order test, the standard triple
    (or constant) denotes if f then g else h. *)
@@ -45,3 +45,41 @@ Theorem C01_exists_correct : forall level (level_inj : forall u v, level u = lev
             (fun x => den p (upd x lbl true) || den p (upd x lbl false)).
 Proof. exact exists_ok. Qed.
 Print Assumptions C01_exists_correct.
+
+(* THE PROPERTY: for every variable order (any permutation), every behaviour of the apply cache
+   (every forgetting stream: "cache everything", "LRU of any capacity", ...) and every operation
+   program (literals, negation, and/or/xor/iff, ite, conditioning on a variable or a partial model,
+   exists, compose, list conjunction/disjunction, variables added at run time), every diagram in
+   the pool -- the old ones included, after all later operations -- is a well-formed ROBDD for the
+   final order and evaluates on every assignment to the value of the specification program. *)
+Theorem C01_ops_correct : forall (remember : nat -> bool) (o : order) (ops : list bop) (st' : bstate),
+  wf_order o -> run_prog remember (bstate_init o) ops = Some st' ->
+  Forall2 (fun p f => WF (level_of (bord st')) (length (bord st')) 0 p /\ forall x, den p x = f x)
+          (bpool st') (snd (spec_prog (length o) [] ops)).
+Proof. exact ops_correct. Qed.
+Check C01_ops_correct : forall (remember : nat -> bool) (o : order) (ops : list bop) (st' : bstate),
+  wf_order o -> run_prog remember (bstate_init o) ops = Some st' ->
+  Forall2 (fun p f => WF (level_of (bord st')) (length (bord st')) 0 p /\ forall x, den p x = f x)
+          (bpool st') (snd (spec_prog (length o) [] ops)).
+Print Assumptions C01_ops_correct.
+
+(* the model never runs out of fuel and never fails on programs that only name variables of
+   the (current) order -- the hypothesis of C01_ops_correct is satisfiable for all of them *)
+Theorem C01_ops_total : forall remember o ops,
+  wf_order o -> vars_ok (length o) ops = true -> exists st', run_prog remember (bstate_init o) ops = Some st'.
+Proof.
+  intros remember o ops WO V. apply (ops_total remember ops (bstate_init o) (length o) []); auto.
+  unfold inv; simpl. repeat split; try apply WO; constructor.
+Qed.
+Print Assumptions C01_ops_total.
+
+(* non-vacuity: a program under a non-identity order with a run-time variable *)
+Example C01_nonvacuous :
+  let o := [1; 0; 2] in
+  let ops := [OVar 0%N true; OVar 1%N false; OAnd 0 1; ONewVar true; OOr 2 3; OExists 4 0%N; OCompose 4 1%N 3; OCond 6 3%N false] in
+  wf_order o /\ vars_ok (length o) ops = true /\
+  match run_prog (fun _ => true) (bstate_init o) ops with Some st => length (bpool st) = 8 | None => False end.
+Proof.
+  split; [split; [repeat constructor; simpl; intuition lia|simpl; intros x H; intuition lia]|].
+  split; vm_compute; reflexivity.
+Qed.
